@@ -277,6 +277,8 @@ def _guard_role(lib, owner, S, b, bi):
         return "duplicate"
     if d[0] == "discr" and d[1][0] == "call" and core.callee_base(d[1][1]) == "core::num::NonZero::new":
         return "zero-length"
+    if d[0] == "discr" and d[1][0] == "call" and core.callee_base(d[1][1]) == "core::iter::Iterator::collect":
+        return "conversion"
     if d[0] == "discr" and d[1][0] == "call" and core.callee_base(d[1][1]).split("::")[-1] in ("checked_add", "checked_mul", "checked_sub"):
         return "scale"
     if any(k in ("core::convert::TryFrom::try_from", "core::convert::TryInto::try_into") for k in callees):
